@@ -190,6 +190,27 @@ theorem C01_put_error_no_change (hash : β → δ) (size : β → Nat) (vols : L
         | generic => exact hsp (by intro r; simp [ho])
   · simp [hcl]
 
+/-- An acknowledged PUT leaves the request body itself under the requested hash on a *writable*
+mount (found there by CompareAndTouch or written there) — whatever the read-only mounts hold. -/
+theorem C01_put_stores_on_writable (hash : β → δ) (size : β → Nat) (vols : List (Vol δ β)) (rr : Nat)
+    (h : δ) (body : β) (cl : Bool) (h200 : (handlePut hash size vols rr h body cl).1.status = 200) :
+    ∃ v' ∈ (handlePut hash size vols rr h body cl).2.1, v'.ro = false ∧ v'.files h = some body := by
+  unfold handlePut at h200 ⊢
+  by_cases hcl : cl = true
+  · by_cases hsz : size body > blockSize
+    · simp [hcl, hsz] at h200
+    · by_cases hw : (allWritable vols).length = 0
+      · simp [hcl, hsz, hw] at h200
+      · simp only [hcl, hsz, hw, Bool.not_true, Bool.false_eq_true, if_false] at h200 ⊢
+        have hsp := (putBlock_spec hash size vols rr h body).stored
+        cases ho : (putBlock hash size vols rr h body).1 with
+        | ok r => simpa [ho] using hsp r ho
+        | requestHash => simp [ho, putStatus] at h200
+        | collision => simp [ho, putStatus] at h200
+        | full => simp [ho, putStatus] at h200
+        | generic => simp [ho, putStatus] at h200
+  · simp [hcl] at h200
+
 /-- Once a PUT is acknowledged, a GET over the resulting volumes (e.g. by a freshly started
 keepstore over the same directories) answers 200 with an intact body — whatever corrupt copies of
 the hash were or still are on any subset of the volumes, read-only or writable. Under
@@ -201,23 +222,8 @@ theorem C01_put_ack_then_get (hash : β → δ) (size : β → Nat) (vols : List
       (handleGet hash size (handlePut hash size vols rr h body cl).2.1 h).contentLength = some (size b') ∧
       hash b' = h ∧ (NoColl hash h body → b' = body) := by
   have hack := C01_put_ack_hash hash size vols rr h body cl h200
-  have hstored : ∃ v' ∈ (handlePut hash size vols rr h body cl).2.1, v'.files h = some body := by
-    unfold handlePut at h200 ⊢
-    by_cases hcl : cl = true
-    · by_cases hsz : size body > blockSize
-      · simp [hcl, hsz] at h200
-      · by_cases hw : (allWritable vols).length = 0
-        · simp [hcl, hsz, hw] at h200
-        · simp only [hcl, hsz, hw, Bool.not_true, Bool.false_eq_true, if_false] at h200 ⊢
-          have hsp := (putBlock_spec hash size vols rr h body).stored
-          cases ho : (putBlock hash size vols rr h body).1 with
-          | ok r => simpa [ho] using hsp r ho
-          | requestHash => simp [ho, putStatus] at h200
-          | collision => simp [ho, putStatus] at h200
-          | full => simp [ho, putStatus] at h200
-          | generic => simp [ho, putStatus] at h200
-    · simp [hcl] at h200
-  exact C01_get_skips_corrupt hash size _ h body hstored hack
+  rcases C01_put_stores_on_writable hash size vols rr h body cl h200 with ⟨v', hv', _, hf⟩
+  exact C01_get_skips_corrupt hash size _ h body ⟨v', hv', hf⟩ hack
 
 end
 
